@@ -299,8 +299,18 @@ def run_case(case):
                             v.check(allzero, "a signal model refusing the view yields an empty signal", antenna=i, **geo)
                             continue
                         if v.check(len(rec["vals"]) == 2, "s and p components are delivered", n=len(rec["vals"]), **geo):
-                            scale = max(float(np.max(np.abs(es.values))), float(np.max(np.abs(ep.values))), 1e-300)
-                            v.close("delivered pulses == model pulse propagated along that solution", max(float(np.max(np.abs(rec["vals"][0] - es.values))), float(np.max(np.abs(rec["vals"][1] - ep.values)))) / scale, 1e-9, antenna=i, **geo)
+                            def _dev(x_, y_):
+                                # a model pulse that is not finite (C07's own finding for ARZ) is delivered as it is: NaN in the same places counts as equal here
+                                x_, y_ = np.asarray(x_, float), np.asarray(y_, float)
+                                both = np.isnan(x_) & np.isnan(y_)
+                                one = np.isnan(x_) ^ np.isnan(y_)
+                                if one.any():
+                                    return float("inf")
+                                return float(np.max(np.where(both, 0.0, np.abs(np.where(both, 0.0, x_) - np.where(both, 0.0, y_))))) if x_.size else 0.0
+                            fin = np.concatenate((es.values[np.isfinite(es.values)], ep.values[np.isfinite(ep.values)]))
+                            scale = max(float(np.max(np.abs(fin))) if fin.size else 0.0, 1e-300)
+                            v.close("delivered pulses == model pulse propagated along that solution", max(_dev(rec["vals"][0], es.values), _dev(rec["vals"][1], ep.values)) / scale, 1e-9, antenna=i,
+                                    model_pulse_finite=bool(fin.size == 2 * len(es.values)), **geo)
                             v.close("delivered polarization vectors == the path's", max(float(np.max(np.abs(rec["pol"][0] - us))), float(np.max(np.abs(rec["pol"][1] - up)))), 1e-12, antenna=i, **geo)
             # signal model was asked with the configured grid and that path's length
             for mc in model_calls:
